@@ -54,7 +54,13 @@ def configs(tier):
                 continue
             if raw and OPS[first] not in ('subset', 'save_clusters'):
                 continue
-            out.append({'raw': raw, 'H': H if not raw else 2, 'first': first})
+            if not raw and H >= 4:
+                for second in range(len(OPS)):
+                    if OPS[second] == 'subset':
+                        continue
+                    out.append({'raw': raw, 'H': H, 'first': first, 'second': second})
+            else:
+                out.append({'raw': raw, 'H': H if not raw else 2, 'first': first})
     return out
 
 
@@ -149,7 +155,8 @@ def run_config(cfg, e):
             m = mod.load_model(vfs.VPath(ds.dir + '/params.py'))
             for i in range(cfg['H']):
                 allowed = [k for k, o in enumerate(OPS) if (o != 'subset' or cfg['raw'])]
-                oi = cfg['first'] if i == 0 else e.choice('op%d' % i, allowed)
+                oi = cfg['first'] if i == 0 else (cfg['second'] if (i == 1 and 'second' in cfg) else
+                                                  e.choice('op%d' % i, allowed))
                 op = OPS[oi]
                 vals = {}
                 if op == 'save_clusters':
